@@ -201,6 +201,7 @@ class locked_index:
             write_index_dict(f, self._index._byname)
         except BaseException:
             self._file.abort()
+            raise
         else:
             f.close()
 
